@@ -162,7 +162,7 @@ class SchemaDesc:
         self.directives = []
 
     def to_json(self):
-        return self.__dict__
+        return {k: v for k, v in self.__dict__.items() if k != "pending_inputs"}
 
 
 RISKY_KINDS = ("keyword_enum", "enum_in_object", "list_of_objects", "id_int", "list_coercion",
@@ -259,6 +259,8 @@ def _lit(d, desc, t, depth, ctx, nullable, kinds, risky, in_obj):
                     continue
                 parts.append(f"{fname}: {sub}")
         return "{" + ", ".join(parts) + "}"
+    if name in getattr(desc, "pending_inputs", ()):
+        return "null" if nullable else None  # forward reference to an input not generated yet
     raise AssertionError(f"not an input type: {name}")
 
 
@@ -303,6 +305,7 @@ def gen_schema(d, *, max_types=8, rich_names=True, defaults=0.3, custom_scalars=
     in_leaf = BUILTIN_SCALARS + list(desc.enums) + desc.scalars
     # inputs: names first (recursion / forward refs), then fields
     input_names = [take() + "Input" for _ in range(n_input)]
+    desc.pending_inputs = set(input_names)
     for idx, name in enumerate(input_names):
         used = set()
         fnames = pick_names(d, d.int(1, 5), used, field_name_pools(d, rich_names))
